@@ -66,6 +66,10 @@ def relation_case(draw, tier="quick"):
     out = {"rel": rel, "test": name, "case": case}
     if rel in ("offset", "joint"):
         out["c"] = draw(st.one_of(gen.dyadic(3, -1024, 1024), st.sampled_from([1024.0, -1024.0, Q, 1e3])))
+        if draw(st.integers(0, 3)) == 0 and not (name == "attenuated" and case.get("check") != "range"):
+            # large magnitudes: still exact on the dyadic grid, but tolerances that grow with the magnitude are not
+            out["c"] = draw(st.sampled_from([2.0 ** 17, -(2.0 ** 17), 2.0 ** 22, 2.0 ** 30, -(2.0 ** 30)]))
+            out["large"] = True
         if name == "valid_range" and case["kind"] == "dt":
             out["c"] = int(draw(st.integers(-10 ** 9, 10 ** 9)))
     if rel == "tshift":
@@ -132,7 +136,7 @@ def check_relation(out, rec):
     if r1 is SKIP:
         return
     rec.note(len(set(r1)) >= 2, [f"rel={rel}", f"{rel}:{name}"] + (["two_distinct_flags"] if len(set(r1)) >= 2 else []) +
-             (["subsecond_shift"] if out.get("subsecond") else []))
+             (["subsecond_shift"] if out.get("subsecond") else []) + (["large_offset"] if out.get("large") else []))
     r2 = run(rec, name, other, rel)
     if r2 is SKIP:
         return
